@@ -6,8 +6,8 @@ import (
 	"strings"
 
 	"github.com/tetratelabs/wazero"
-
 	"github.com/tetratelabs/wazero/api"
+	"github.com/tetratelabs/wazero/experimental"
 
 	"verifharness/plan"
 	"verifharness/sim"
@@ -32,6 +32,9 @@ func (c06) Classes() []sim.Class {
 			sim.Class{Name: "faultfree", Engine: e, Quick: 800, Thorough: 30000, DeathIsViolation: true, RunTimeoutSec: 60},
 			sim.Class{Name: "history", Engine: e, Quick: 3000, Thorough: 150000, DeathIsViolation: true, RunTimeoutSec: 60},
 			sim.Class{Name: "overflow", Engine: e, Quick: 60, Thorough: 1500, DeathIsViolation: true, RunTimeoutSec: 120, Batch: 4},
+			// the same histories with a listener factory attached at compile time (listeners change the
+			// host-call and unwinding paths of both engines); events are judged as in C20
+			sim.Class{Name: "history-with-listeners", Engine: e, Quick: 1000, Thorough: 40000, DeathIsViolation: true, RunTimeoutSec: 60},
 		)
 	}
 	for _, e := range []string{"interpreter", "compiler"} {
@@ -80,7 +83,9 @@ func (c20) Describe() sim.Description {
 	return d
 }
 
-func (c06) Run(t *tape.Tape, cfg sim.Config) sim.Result { return run(t, cfg, false) }
+func (c06) Run(t *tape.Tape, cfg sim.Config) sim.Result {
+	return run(t, cfg, cfg.Class == "history-with-listeners")
+}
 func (c20) Run(t *tape.Tape, cfg sim.Config) sim.Result { return run(t, cfg, true) }
 
 func run(t *tape.Tape, cfg sim.Config, listen bool) (res sim.Result) {
@@ -167,6 +172,12 @@ func run(t *tape.Tape, cfg sim.Config, listen bool) (res sim.Result) {
 	}
 	r.setup([]*plan.Plan{pa, pa, pb}, []string{"a", "", "b"}, []int{-1, -1, 0})
 	defer r.rt.Close(r.ctx)
+	if t.Chance(1, 4) {
+		// experimental snapshot support switched on for every call (no snapshot is ever taken): the
+		// engines then run calls through their checkpoint-aware paths
+		r.ctx = experimental.WithSnapshotter(r.ctx)
+		res.Stat("probe.snapshotter_context", 1)
+	}
 	r.w = &plan.World{Host: r.modelHost, Listen: r.listens}
 	ncalls := t.Range(5, 30)
 	overflows := 0
